@@ -132,6 +132,10 @@ class SymbolCounter:
         self._fields = defaultdict(int)
         self._classes = []
 
+        # The lets whose defining expression is being visited: the name is
+        # bound in the body only.
+        self._defining = {}
+
     def previsit(self, node):
         if node.is_class:
             self._classes.append([])
@@ -141,7 +145,11 @@ class SymbolCounter:
             # restore it afterwards.
             if getattr(node, 'shadows', False) and not self.is_variable(node.name):
                 self.freevars.add(node.name)
-            self._counts[node.name] += 1
+            # In "let x = a in b" the name is bound in b, not in a.
+            if isinstance(getattr(node, 'expr', None), Expression):
+                self._defining[id(node.expr)] = node.name
+            else:
+                self._counts[node.name] += 1
 
         if node.has_params and node.params:
             for param in node.params:
@@ -157,6 +165,9 @@ class SymbolCounter:
                 self.freevars.add(name)
 
     def postvisit(self, node):
+        if id(node) in self._defining:
+            self._counts[self._defining.pop(id(node))] += 1
+
         if node.defines_local:
             self._counts[node.name] -= 1
 
